@@ -27,6 +27,13 @@ import (
 // c01genOps draws the API flavour, the transport / channel options that must not matter, and the
 // operation list over the already drawn commands.
 func c01genOps(r *vlib.Rng, cs *c01case) {
+	c01genOps0(r, cs)
+	for i := range cs.ops {
+		cs.ops[i].oseed = r.U64()
+	}
+}
+
+func c01genOps0(r *vlib.Rng, cs *c01case) {
 	cs.api = []int{c01apiCommand, c01apiCommand, c01apiCommand, c01apiCommands, c01apiCommands, c01apiChannel, c01apiChannel,
 		c01apiNetCommand, c01apiNetCommand, c01apiNetCommands, c01apiFile, c01apiNetFile}[r.Intn(12)]
 	cs.privKnown = r.Chance(1, 2)
@@ -236,23 +243,72 @@ var c01interimRe = func() []*regexp.Regexp {
 	return out
 }()
 
-func c01opOpts(cs c01case, op c01op) []util.Option {
-	var o []util.Option
+// c01optLayout is the per-operation option list of one call, by name and in call order: the
+// channel-level options the operation needs (their effective set is what the model gets) in random
+// order, with 0-3 options of other layers before / between / after them. channel.NewOperation must
+// apply every channel option wherever it stands.
+func c01optLayout(cs c01case, op c01op) []string {
+	var l []string
 	if !cs.strip {
-		o = append(o, opoptions.WithNoStripPrompt())
+		l = append(l, "nostrip")
 	}
 	if cs.exact {
-		o = append(o, opoptions.WithExactMatchInput())
+		l = append(l, "exact")
 	}
 	if op.kind == 'E' {
-		o = append(o, opoptions.WithEager())
+		l = append(l, "eager")
 	}
 	if len(op.interim) > 0 {
-		var ps []*regexp.Regexp
-		for _, i := range op.interim {
-			ps = append(ps, c01interimRe[i])
+		l = append(l, "interim")
+	}
+	r := vlib.NewRng(op.oseed ^ 0x5eed0b75)
+	if r.Chance(1, 3) {
+		l = append(l, "timeout") // the driver's own 3 s, spelled out per operation
+	}
+	for i := len(l) - 1; i > 0; i-- {
+		j := r.Intn(i + 1)
+		l[i], l[j] = l[j], l[i]
+	}
+	foreign := []string{"failedwhen", "stoponfailed"}
+	if c01apiNet(cs.api) {
+		foreign = append(foreign, "privlevel")
+	}
+	for n := []int{0, 1, 1, 2, 2, 3}[r.Intn(6)]; n > 0; n-- {
+		at := r.Intn(len(l) + 1)
+		l = append(l[:at], append([]string{r.Pick(foreign)}, l[at:]...)...)
+	}
+	return l
+}
+
+func c01optForeign(name string) bool {
+	return name == "failedwhen" || name == "stoponfailed" || name == "privlevel"
+}
+
+func c01opOpts(cs c01case, op c01op) []util.Option {
+	var o []util.Option
+	for _, name := range c01optLayout(cs, op) {
+		switch name {
+		case "nostrip":
+			o = append(o, opoptions.WithNoStripPrompt())
+		case "exact":
+			o = append(o, opoptions.WithExactMatchInput())
+		case "eager":
+			o = append(o, opoptions.WithEager())
+		case "interim":
+			var ps []*regexp.Regexp
+			for _, i := range op.interim {
+				ps = append(ps, c01interimRe[i])
+			}
+			o = append(o, opoptions.WithInterimPromptPattern(ps))
+		case "timeout":
+			o = append(o, opoptions.WithTimeoutOps(3*time.Second))
+		case "failedwhen":
+			o = append(o, opoptions.WithFailedWhenContains([]string{"zzz-never"}))
+		case "stoponfailed":
+			o = append(o, opoptions.WithStopOnFailed())
+		case "privlevel":
+			o = append(o, opoptions.WithPrivilegeLevel("exec"))
 		}
-		o = append(o, opoptions.WithInterimPromptPattern(ps))
 	}
 	return o
 }
@@ -464,7 +520,7 @@ func runC01case(cs c01case) (o c01obs) {
 			failed = err != nil
 			i++
 		case op.kind == 'N':
-			mr, err := many(nil, op.nkind, c01opOpts(cs, c01op{kind: 'S'}))
+			mr, err := many(nil, op.nkind, c01opOpts(cs, c01op{kind: 'S', oseed: op.oseed}))
 			o.errs[i] = errClass(err)
 			o.noResp[i] = mr == nil || len(mr.Responses) == 0
 			i++
